@@ -119,7 +119,10 @@ class H:
             sim.log("fail", path=path, phase="creating")
             raise e
 
-    async def on_phase(self, inst: Any, phase: str) -> None:
+    def eager_start(self, inst: Any) -> int:
+        return 0
+
+    async def on_phase(self, inst: Any, phase: str, skip: int = 0) -> None:
         sim = self.sim
         path, n = self.by_cls[type(inst)]
         sim.log("phase_begin", path=path, phase=phase)
@@ -277,6 +280,7 @@ class H:
     async def svc(self, spec: dict) -> None:
         sim = self.sim
         name = spec["name"]
+        flag = [1]
 
         async def run_body(task_status: Any) -> None:
             sim.log("svc_start", svc=name)
@@ -294,7 +298,17 @@ class H:
                     sim.fault("task_crash")
                     sim.log("svc_crash", svc=name, tag=e.tag)  # type: ignore[attr-defined]
                     raise e
-                await anyio.sleep_forever()
+                if spec.get("action") == "builtin":
+                    # told to stop through a built-in bound method (list.clear) given as
+                    # the teardown action
+                    for _ in range(2000):  # (polls for a bounded stretch of virtual time)
+                        if not flag:
+                            break
+                        await anyio.sleep(0.25)
+                    else:
+                        await anyio.sleep_forever()
+                else:
+                    await anyio.sleep_forever()
             finally:
                 sim.log("svc_end", svc=name)
 
@@ -327,6 +341,8 @@ class H:
                     raise SimError(f"teardown action of {name}")
 
             await start_service_task(body, name, teardown_action=act)
+        elif action == "builtin":
+            await start_service_task(body, name, teardown_action=flag.clear)
         else:
             await start_service_task(body, name)
         sim.log("svc_reg", svc=name)
@@ -731,8 +747,8 @@ def gen(rng: random.Random, tier: str, prop: str) -> dict:
             elif allow_svc and nsvc[0] < 3:
                 nsvc[0] += 1
                 sv: dict[str, Any] = {"name": f"s{nsvc[0]}"}
-                if rng.random() < 0.3:
-                    sv["action"] = rng.choice(("araise", "sraise"))
+                if rng.random() < 0.4:
+                    sv["action"] = rng.choice(("araise", "sraise", "builtin"))
                 if rng.random() < 0.3:
                     sv["handshake"] = rng.choice((0.25, 0.5, 1.0))
                 out.append(["svc", sv])
